@@ -4,15 +4,19 @@
 # the given checks, and always restores /repo. Prints one line per check.
 set -u
 patch="$1"; tier="$2"; shift 2
+# MUT_REPO: run against another checkout of the repository (regression sweeps in the
+# background); default is /repo itself, as for the registered checks
+REPO="${MUT_REPO:-/repo}"
+[ "$REPO" != "/repo" ] && export VERIF_REPO="$REPO"
 cd /verif
-if [ -n "$(git -C /repo status --porcelain)" ]; then echo "mutcheck: /repo is not clean" >&2; exit 2; fi
+if [ -n "$(git -C "$REPO" status --porcelain)" ]; then echo "mutcheck: $REPO is not clean" >&2; exit 2; fi
 # evidence files must only ever come from the unchanged tree
 rm -rf /dev/shm/evid.bak && cp -r evidence /dev/shm/evid.bak 2>/dev/null
-trap 'git -C /repo checkout -- . ; git -C /repo clean -fdq -- . >/dev/null 2>&1; rm -rf evidence; cp -r /dev/shm/evid.bak evidence 2>/dev/null; rm -rf /dev/shm/evid.bak' EXIT
-if ! git -C /repo apply "$patch"; then echo "mutcheck: patch does not apply"; exit 2; fi
+trap 'git -C "$REPO" checkout -- . ; git -C "$REPO" clean -fdq -- . >/dev/null 2>&1; rm -rf evidence; cp -r /dev/shm/evid.bak evidence 2>/dev/null; rm -rf /dev/shm/evid.bak' EXIT
+if ! git -C "$REPO" apply "$patch"; then echo "mutcheck: patch does not apply"; exit 2; fi
 export GOFLAGS=-mod=mod GOPROXY=off GOSUMDB=off GOTOOLCHAIN=local
-fails=$(cd /repo && go test -vet=off -count=1 ./... 2>&1 | grep -E "^--- FAIL" | grep -v TestIOZero)
-if ! (cd /repo && go build ./... 2>/dev/null); then echo "SUITE build-fails"; exit 3; fi
+fails=$(cd "$REPO" && go test -vet=off -count=1 ./... 2>&1 | grep -E "^--- FAIL" | grep -v TestIOZero)
+if ! (cd "$REPO" && go build ./... 2>/dev/null); then echo "SUITE build-fails"; exit 3; fi
 if [ -n "$fails" ]; then echo "SUITE fails: $fails"; else echo "SUITE passes (except TestIOZero)"; fi
 for p in "$@"; do
   out=$(timeout 1500 ./run "$p" "$tier" 2>&1); code=$?
